@@ -431,14 +431,36 @@ pub trait AsView: Layout {
         }
 
         let items = range.into_slice_items();
-        let sliced_shape: Vec<_> = items
-            .as_ref()
+        let items = items.as_ref();
+        assert!(
+            items.len() <= self.ndim(),
+            "slice range has {} items but tensor has {} dims",
+            items.len(),
+            self.ndim()
+        );
+
+        // Dimensions without a corresponding item in `items` are retained
+        // in full, as with `slice`.
+        let sliced_shape: Vec<_> = self
+            .shape()
             .iter()
-            .copied()
             .enumerate()
-            .filter_map(|(dim, item)| match item {
-                SliceItem::Index(_) => None,
-                SliceItem::Range(range) => Some(range.index_range(self.size(dim)).steps()),
+            .filter_map(|(dim, size)| match items.get(dim) {
+                Some(SliceItem::Index(index)) => {
+                    let index_valid = if *index >= 0 {
+                        (*index as usize) < size
+                    } else {
+                        index.unsigned_abs() <= size
+                    };
+                    assert!(
+                        index_valid,
+                        "slice index {} is invalid for axis {} of size {}",
+                        index, dim, size
+                    );
+                    None
+                }
+                Some(SliceItem::Range(range)) => Some(range.index_range(size).steps()),
+                None => Some(size),
             })
             .collect();
         let sliced_len = sliced_shape.iter().product();
@@ -447,7 +469,7 @@ pub trait AsView: Layout {
         copy_range_into_slice(
             self.as_dyn(),
             &mut sliced_data.spare_capacity_mut()[..sliced_len],
-            items.as_ref(),
+            items,
         );
 
         // Safety: `copy_range_into_slice` initialized `sliced_len` elements.
